@@ -7,6 +7,8 @@ from dataclasses import dataclass, field, fields, is_dataclass
 from enum import Enum
 from typing import Any, Literal
 
+from hypergraph.nodes.base import _EMIT_SENTINEL
+
 ErrorHandling = Literal["raise", "continue"]
 
 _MAX_STRING_PREVIEW = 120
@@ -329,7 +331,8 @@ class GraphState:
 
         Only increments version if:
         - Name is new (not previously set), or
-        - Value is different from previous value
+        - Value is different from previous value, or
+        - Value is the emit sentinel (each emission counts as a new production)
         """
         old_value = self.values.get(name)
         is_new = name not in self.values
@@ -338,6 +341,10 @@ class GraphState:
 
         # Only increment version if value actually changed
         if is_new:
+            self.versions[name] = self.versions.get(name, 0) + 1
+        elif value is _EMIT_SENTINEL:
+            # An emit signal carries no value: every emission is a new production,
+            # so wait_for consumers see a fresh version each time the producer runs
             self.versions[name] = self.versions.get(name, 0) + 1
         else:
             # Defensive comparison for types like numpy arrays
